@@ -391,6 +391,24 @@ fn configurations(ctx: &mut Ctx) {
             ctx.nontrivial(format!("{:?}{}", cfg, src).as_bytes());
         }
     }
+    // file-size sweep: three families (strings / globals table / class member table) whose bytecode and
+    // AST files straddle the 8 KiB buffer at many alignments, default pipeline of each format in turn
+    ctx.stage("file-size sweep through the default pipelines (processes)");
+    let step = if ctx.quick() { 3 } else { 1 };
+    for kind in 0..3usize {
+        for n in (300..=560usize).step_by(step) {
+            if ctx.take().is_none() { continue }
+            let (src, _) = super::bcprops::sweep_family(kind, n);
+            let f = cli::write_file(&ctx.scratch, "base.fml", src.as_bytes());
+            let b = cli::simple(&exe, &["run", f.to_str().unwrap()]);
+            let eb = pipeline::compile_source(&src);
+            let cfg = default_config(n % 3);
+            ctx.describe(&format!("{:?}\nsweep family {} n = {}", cfg, kind, n));
+            run_pipeline(ctx, &src, &cfg, &b, &eb);
+            ctx.count("programs", 1);
+            ctx.nontrivial(&[kind as u8, (n % 256) as u8, (n / 256) as u8]);
+        }
+    }
     // the repository's wrapper script staging `run` through JSON
     ctx.stage("the `fml` wrapper script");
     let root = std::env::var("VERIF_REPO").unwrap_or("/repo".to_string());
